@@ -903,6 +903,8 @@ class Run:
             return Val(r.ty, r.t, pykind="bytes")
         if v is Ellipsis:
             return Conc(Ellipsis)
+        if isinstance(v, float):
+            return Conc(("float", v))       # opaque: floats are only passed on to stubs, never computed with
         raise EngineError(f"unsupported constant {v!r}")
 
     def ex_Name(self, node, fr):
